@@ -173,6 +173,15 @@ func Main(t *testing.T) {
 		mode = prop.Modes()[0]
 	}
 	soloT = t
+	if os.Getenv("VERIF_NODE") != "" {
+		b, err := StartBridge()
+		if err != nil {
+			t.Fatalf("starting TS bridge: %v", err)
+		}
+		b.keepLog = os.Getenv("VERIF_KEEPLOG") != ""
+		globalBridge = b
+		defer b.Close()
+	}
 	t0 := time.Now()
 	r := &runner{t: t, w: w, prop: prop, mode: mode, cov: &Coverage{}, known: map[string]bool{}}
 	r.res = &Result{World: worldName, Prop: propID, Mode: mode, KnownHits: map[string]int{}, KnownSamples: map[string]*FoundViolation{}}
